@@ -133,6 +133,10 @@ def run(ctx):
     evs = (vlib.read_ndjson(trA) if trA else []) + (vlib.read_ndjson(trB) if trB else [])
     rel = [e for e in evs if e["e"] not in ("pre", "end")]
     nontriv = [e for e in rel if e.get("reports") or e.get("started") or e.get("stopped") or e.get("rc") not in (None, "ok")]
+    from tracecheck import extra_conformance
+    extras = [extra_conformance(ctx, wd, "RtrMgrTrace", "RtrMgrTrace.cfg", "OK_EXT", t,
+                                "rtr_mgr_conf_in_sync() = some group has every socket synchronised (RtrMgr!InSync), after every step")
+              for t in (trA, trB) if t]
     rcode = verdict.finish()
     vlib.write_evidence(pid, tier, seed, "model_checking", {
         "states": sum(m["distinct"] for m in models), "transitions": sum(m["generated"] for m in models),
@@ -141,6 +145,7 @@ def run(ctx):
         "rule": "manager API calls / socket state changes executed on the real rtr_mgr code, each checked by RtrMgrTrace.tla (state refinement + the four clauses of C15); non-trivial = the step reported a status, started/stopped a socket or was rejected",
         "checker_cmd": "tlc MCRtrMgr (%s); tlc RtrMgrTrace (INVARIANT OK_C15, POSTCONDITION TraceAccepted)" % ", ".join(P["cfgs"]),
         "events_validated": tc.events, "known_findings_hit": [k for k, _ in verdict.known],
+        "extra_conformance": extras,
         "detail": {"model": models, "binding_A": {"behaviours": len(behs), "ops": nA}, "binding_B": {"runs": P["runs"], "ops": nB}},
     }, time.time() - t0, len(verdict.violations), [
         "rtr_start/rtr_stop are replaced by stubs that reproduce their state effects (SHUTDOWN callback, reset, CLOSED); the real socket layer is C03..C08's business",
